@@ -153,10 +153,74 @@ def _cases(trees: st.SearchStrategy, strip: bool) -> st.SearchStrategy:
     return st.fixed_dictionaries({"tree": tr, "spacing": st.integers(0, 2**32 - 1), "sink": st.integers(0, 3)})
 
 
+# ----------------------------------------------------------------------------------------------------------------------
+# Identifiers.  A name in an expression stands for the constant of that name declared *earlier in the same section*; after `---` the
+# request's names are unknown again (unknown identifiers are among the operand combinations the statement lists as rejected), and a
+# response may declare the same names anew with other values.
+
+NAMES = ["A", "LIMIT", "k2"]
+
+
+def check_identifiers(case: typing.Any, ctx: Ctx) -> Info:
+    import pydsdl
+
+    lines: typing.List[str] = []
+    env: typing.Dict[str, int] = {}
+    expect_reject = None
+    for si, section in enumerate(case["sections"]):
+        if si == 1:
+            lines += ["@sealed", "---"]
+            env = {}
+        for st_ in section:
+            name = NAMES[st_["name"] % len(NAMES)]
+            if st_["op"] == "declare":
+                if name in env:
+                    continue  # (a second declaration of a name within a section is C05's business)
+                env[name] = st_["value"]
+                lines.append("uint16 %s = %d" % (name, st_["value"]))
+            else:
+                form = st_["op"]
+                if name in env:
+                    v = env[name]
+                    text = {"assert": "@assert %s == %d" % (name, v), "print": "@print %s + 1/2" % name, "capacity": "uint8[<=%s + 1] arr%d" % (name, len(lines)),
+                            "const": "uint32 C%d = %s * 2" % (len(lines), name), "assert-expr": "@assert (%s + 1) * 2 - %s == %d" % (name, name, v + 2)}[form]
+                else:
+                    text = {"assert": "@assert %s >= 0" % name, "print": "@print %s" % name, "capacity": "uint8[<=%s + 1] arr%d" % (name, len(lines)), "const": "uint32 C%d = %s" % (len(lines), name),
+                            "assert-expr": "@assert %s == %s" % (name, name)}[form]
+                    if expect_reject is None:
+                        expect_reject = "%s is not declared in this section (line %d)" % (name, len(lines) + 1)
+                lines.append(text)
+    lines.append("@sealed")
+    if len(case["sections"]) == 1 or not any(l == "---" for l in lines):
+        pass
+    text = "\n".join(lines) + "\n"
+    d = ctx.scratch()
+    try:
+        os.makedirs(os.path.join(d, "ns"))
+        with open(os.path.join(d, "ns", "Ident.1.0.dsdl"), "w") as f:
+            f.write(text)
+        got_prints: typing.List[str] = []
+        res, ex = guarded(pydsdl.read_namespace, os.path.join(d, "ns"), [], lambda p_, l_, t_: got_prints.append(t_), allowed=(pydsdl.InvalidDefinitionError,), what="read:identifiers")
+    finally:
+        ctx.cleanup(d)
+    if expect_reject is not None:
+        require(ex is not None, "undefined-identifier-accepted", "InvalidDefinitionError: " + expect_reject, "accepted", text)
+    else:
+        require(ex is None, "defined-expression-rejected:identifier", "accepted", "%s: %s" % (type(ex).__name__, ex), text)
+    service = "---" in lines
+    return Info(True, ["identifiers", "service" if service else "message", "reject" if expect_reject else "accept"], sample=text)
+
+
+def _identifier_cases() -> st.SearchStrategy:
+    stmt = st.fixed_dictionaries({"op": st.sampled_from(["declare", "declare", "assert", "print", "capacity", "const", "assert-expr"]), "name": st.integers(0, 2), "value": st.integers(0, 200)})
+    return st.fixed_dictionaries({"sections": st.lists(st.lists(stmt, min_size=1, max_size=5), min_size=1, max_size=2)})
+
+
 def parts(ctx: Ctx) -> typing.List[Part]:
     well = st.one_of(ge.any_value(3), ge.any_value(4), ge.rat(4), ge.boolean(4), ge.sets("rat", 3), ge.sets("str", 2), ge.string(3))
     return [
         Part("minimal-parens", _cases(well, True), check_expression, weight=4),
         Part("redundant-parens", _cases(well, False), check_expression, weight=2),
         Part("ill-typed", _cases(ge.ill_typed(3), False), check_expression, weight=3),
+        Part("identifiers", _identifier_cases(), check_identifiers, weight=1),
     ]
